@@ -8,7 +8,7 @@ From VModel Require Import Rating.
 Open Scope string_scope. Open Scope list_scope. Open Scope Z_scope.
 
 (* the level texts the code iterates over: `for idx, level in enumerate(['fail', 'warn', 'info'])` *)
-Definition level_text (l : level) : string := match l with LFail => "fail" | LWarn => "warn" | LInfo => "info" end.
+(* level_text: see model/Rating.v *)
 
 Lemma tie_status_step : forall st l, status_step st l = src_status_step st (level_text l).
 Proof.
